@@ -27,6 +27,10 @@ fn main() {
     let threads: usize = std::env::var("VERIF_THREADS").ok().and_then(|s| s.parse().ok()).unwrap_or_else(|| std::thread::available_parallelism().map(|n| n.get()).unwrap_or(8));
     let scale: f64 = std::env::var("VERIF_SCALE").ok().and_then(|s| s.parse().ok()).unwrap_or(1.0);
     let id = args[1].clone();
+    if id == "hardtable" {
+        selftest::hard_table_report();
+        return;
+    }
     if id == "selftest" {
         match selftest::run(seed, &verif_dir) {
             Ok(n) => {
@@ -53,6 +57,10 @@ fn main() {
             "C03" => props::c03::replay(&v),
             "C05" => props::c05::replay(&v),
             "C09" | "C10" => props::c09::replay(&v),
+            "C11" => props::c11::replay(&v),
+            "C14" => props::c14::replay(&v),
+            "C17" => props::c17::replay(&v),
+            "C18" => props::c18::replay(&v),
             _ => Err(format!("no replay for {id}")),
         };
         match r {
@@ -94,6 +102,10 @@ fn main() {
         "C07" => props::c07::run(&ctx),
         "C09" => props::c09::run(&ctx),
         "C10" => props::c10::run(&ctx),
+        "C11" => props::c11::run(&ctx),
+        "C14" => props::c14::run(&ctx),
+        "C17" => props::c17::run(&ctx),
+        "C18" => props::c18::run(&ctx),
         _ => {
             eprintln!("unknown property {id}");
             2
